@@ -35,7 +35,7 @@ def setup():
 
 
 def plan(tier, seed):
-    n = 500 if tier == "quick" else 12000
+    n = 1500 if tier == "quick" else 12000
     return [["bld", i] for i in range(n)] + [["start", i] for i in range(n // 3)] + [["lig", i] for i in range(n // 5)] + \
         [["split", i] for i in range(n // 4)]
 
